@@ -186,7 +186,12 @@ func c09(r *hx.Run) {
 		if j.kt != fx.Ed25519 {
 			rr, ss := new(big.Int).SetBytes(sb[:n/2]), new(big.Int).SetBytes(sb[n/2:])
 			N := key.Order()
-			pad := func(x *big.Int) []byte { b := x.Bytes(); out := make([]byte, n/2); copy(out[n/2-len(b):], b); return out }
+			pad := func(x *big.Int) []byte {
+				b := x.Bytes()
+				out := make([]byte, n/2)
+				copy(out[n/2-len(b):], b)
+				return out
+			}
 			classes["r-zero"] = append(make([]byte, n/2), sb[n/2:]...)
 			classes["s-zero"] = append(append([]byte{}, sb[:n/2]...), make([]byte, n/2)...)
 			classes["r-eq-n"] = append(pad(N), sb[n/2:]...)
